@@ -49,6 +49,7 @@ type Program struct {
 	lockInvs   map[string]*lockInv  // "T.mu" -> invariant of the state that mutex guards (over self *T)
 	interference bool               // concurrent reading of critical sections (see lockOp)
 	muIDs      map[string]int
+	reachCache map[*ssa.Function]map[*ssa.Function]bool
 }
 
 type lockInv struct {
